@@ -47,7 +47,7 @@ def st_rstart(draw):
 
 @st.composite
 def st_rop(draw, extra=()):
-    o = draw(st.sampled_from(['append', 'append', 'iterappend', 'trunc', 'trunc', 'mode', 'reopen', 'read', 'ctx'] + list(extra)))
+    o = draw(st.sampled_from(['append', 'append', 'iterappend', 'trunc', 'trunc', 'mode', 'reopen', 'read', 'ctx', 'failappend'] + list(extra)))
     if o == 'append':
         return {'o': 'append', 'item': draw(st_item())}
     if o == 'iterappend':
@@ -74,12 +74,57 @@ def st_rop(draw, extra=()):
         return {'o': 'overwrite', 'start': draw(st_rstart())}
     if o == 'copy':
         return {'o': 'copy'}
+    if o == 'failappend':
+        return {'o': 'failappend', 'items': [draw(st_item()) for _ in range(draw(st.integers(0, 3)))],
+                'kind': draw(st.sampled_from(['raise', 'badatom', 'unconv'])), 'gen': draw(st.booleans())}
     raise ValueError(o)
+
+
+def _draw_lazy(draw, spec):
+    if draw(st.sampled_from([False, False, True])):
+        spec['lazy'] = True
+        for op in spec['ops']:
+            if draw(st.sampled_from([True, False, False, False])):
+                op['lo'] = True
+    return spec
 
 
 @st.composite
 def st_ragged_history(draw, max_ops=8, extra=()):
-    return {'start': draw(st_rstart()), 'ops': [draw(st_rop(extra)) for _ in range(draw(st.integers(1, max_ops)))]}
+    spec = {'start': draw(st_rstart()), 'ops': [draw(st_rop(extra)) for _ in range(draw(st.integers(1, max_ops)))]}
+    return _draw_lazy(draw, spec)
+
+
+GROWTH_TRUNC = [0, 1, 2, 3, 4, 5, -1, -2, 'half']
+
+
+@st.composite
+def st_growth_history(draw, max_ops=12):
+    """Histories on ONE handle that grow, shrink and regrow a ragged array around the lengths the README listing
+    distinguishes (<= 5, 6, > 6): appends of 1-3 items, truncations to small lengths, failing appends; by-object calls only,
+    an occasional reopen."""
+    rank = draw(st.integers(0, 1))
+    start = {'how': 'as', 'dt': draw(gens.st_dt()), 'atom': [draw(st.integers(1, 3)) for _ in range(rank)],
+             'indextype': draw(st.sampled_from(['int64', 'int64', 'int32', 'uint16'])), 'meta': None, 'mode': 'r+', 'dtarg': True,
+             'gen': False, 'items': [draw(st_item()) for _ in range(draw(st.integers(1, 8)))]}
+    ops = []
+    for _ in range(draw(st.integers(3, max_ops))):
+        o = draw(st.sampled_from(['append', 'append', 'iterappend', 'iterappend', 'trunc', 'trunc', 'failappend', 'reopen', 'ctx']))
+        if o == 'append':
+            ops.append({'o': 'append', 'item': draw(st_item())})
+        elif o == 'iterappend':
+            ops.append({'o': 'iterappend', 'items': [draw(st_item()) for _ in range(draw(st.integers(1, 3)))], 'gen': draw(st.booleans())})
+        elif o == 'trunc':
+            ops.append({'o': 'trunc', 'i': draw(st.sampled_from(GROWTH_TRUNC)), 'by': 'obj'})
+        elif o == 'failappend':
+            ops.append({'o': 'failappend', 'items': [draw(st_item()) for _ in range(draw(st.integers(0, 3)))],
+                        'kind': draw(st.sampled_from(['raise', 'badatom', 'unconv'])), 'gen': True})
+        elif o == 'ctx':
+            ops.append({'o': 'ctx', 'via': draw(st.sampled_from(['open_arrays', 'iter_arrays'])),
+                        'ops': [{'o': 'append', 'item': draw(st_item())} for _ in range(draw(st.integers(1, 3)))]})
+        else:
+            ops.append({'o': 'reopen', 'm': 'r+'})
+    return _draw_lazy(draw, {'start': start, 'ops': ops, 'growthgen': True})
 
 
 def build_item(it, dt, atom):
@@ -170,7 +215,7 @@ class RaggedRun:
         n = len(m)
         if 'model' in self.oracles:
             # while an enclosing context holds the (fixed-shape) memory maps open, only a fresh handle can see new data
-            handles = [] if getattr(self, 'in_ctx', False) else [('live', self.ra)]
+            handles = [] if (getattr(self, 'in_ctx', False) or getattr(self, 'skip_live', False)) else [('live', self.ra)]
             try:
                 handles.append(('fresh', darr.RaggedArray(self.path)))
             except Exception as e:
@@ -371,6 +416,41 @@ class RaggedRun:
             self.m = m + mis
             self.nmut += 1
             return self.observe(tag)
+        if o == 'failappend':
+            # an iterappend that fails after len(items) good items: the call must raise and exactly the good items are kept
+            if self.mode == 'r' or getattr(self, 'in_ctx', False):
+                return True
+            xs = [build_item(it, self.dt, self.atom) for it in op['items']]
+            mis = [model_item(x, self.dt) for x in xs]
+            if not self.fits(sum(len(x) for x in mis) + 4):
+                return True
+            fk = op['kind']
+            tag = f"failappend:{fk}:{len(xs)}"
+            self.kinds.append('failappend')
+            self.out.cls('failed-append-in-history', f'failed-append:{fk}')
+
+            class _Boom(Exception):
+                pass
+            bad = np.zeros((2,) + tuple(self.atom) + (2,), self.dt) if fk == 'badatom' else [['x', 'y']] if fk == 'unconv' else None
+
+            def src():
+                for x in xs:
+                    yield x
+                if bad is None:
+                    raise _Boom('data source failed')
+                yield bad
+            it = src() if (op.get('gen', True) or bad is None) else xs + [bad]
+            try:
+                ra.iterappend(it)
+            except Exception:
+                pass
+            else:
+                self.out.viol('no-raise', tag, f'step {self.stepno}: failing iterappend did not raise')
+                return False
+            self.m = m + mis
+            if mis:
+                self.nmut += 1
+            return self.observe(tag)
         if o == 'trunc':
             n = len(m)
             idx = trunc_index(op['i'], n)
@@ -526,11 +606,22 @@ def run_ragged_history(ctx, spec, oracles):
             out.cls('nonnative')
         if any(len(x) == 0 for x in run.m):
             out.cls('zero-length-subarray')
+        lazy = bool(spec.get('lazy'))
+        if lazy:
+            out.cls('live-handle-observed-lazily')
         if run.observe('create:' + s['how']):
+            ok = True
             for op in spec['ops']:
+                # lazy histories look at the live handle only after the ops flagged 'lo' and at the end, so that anything the
+                # handle caches at one length survives unobserved shrink/regrow steps (a fresh handle is compared after every step)
+                run.skip_live = lazy and not op.get('lo', False)
                 if not run.step(op):
+                    ok = False
                     break
                 if any(len(x) == 0 for x in run.m):
                     out.cls('zero-length-subarray')
+            run.skip_live = False
+            if ok and lazy:
+                run.observe('final:live')
         run.ra = None
     return out, run
